@@ -30,6 +30,7 @@ from a816.parse.ast.nodes import (
     TextAstNode,
 )
 from a816.parse.nodes import (
+    ArgumentNode,
     AsciiNode,
     BinaryNode,
     ByteNode,
@@ -398,7 +399,7 @@ def generate_macro_application(
             resolver.current_scope.add_symbol(arg, bound_values[index])
         else:
             # defer the resolve to the emit part.
-            code.append(SymbolNode(arg, macro_args_values[index], resolver))
+            code.append(ArgumentNode(arg, macro_args_values[index], resolver))
     code += _code_gen(macro_code.body, resolver, macro_definitions)
     code.append(PopScopeNode(resolver))
     resolver.restore_scope()
